@@ -357,6 +357,32 @@ fn has_named(r: &Rule) -> bool {
     r.when.iter().flatten().chain(r.body.iter()).any(|l| l.iter().any(c_has))
 }
 
+/// same-named definitions (B5': the first non-SKIP definition in file order counts) with a user
+/// placed before, between and after them
+pub fn same_name_family(full: bool) -> Vec<File> {
+    let g = Gen::standard(true);
+    let pool: Vec<Clause> = leaf_pool();
+    let pool: Vec<Clause> = if full { pool } else { vec![pool[0].clone(), pool[1].clone(), pool[5].clone(), pool[6].clone(), pool[11].clone()] };
+    let mut out = vec![];
+    for cond in &g.conds {
+        for l1 in &pool {
+            for l2 in &pool {
+                let mut d1 = rule("s", vec![vec![l1.clone()]]);
+                d1.when = Some(vec![vec![cond.clone()]]);
+                let d2 = rule("s", vec![vec![l2.clone()]]);
+                for not in [false, true] {
+                    let u = rule("u", vec![vec![named("s").with_not(not)]]);
+                    for order in [[0usize, 1, 2], [0, 2, 1], [2, 0, 1], [1, 0, 2], [1, 2, 0], [2, 1, 0]] {
+                        let rs = [d1.clone(), d2.clone(), u.clone()];
+                        out.push(File { lets: vec![], rules: order.iter().map(|k| rs[*k].clone()).collect(), default: vec![] });
+                    }
+                }
+            }
+        }
+    }
+    out
+}
+
 pub struct Bfs {
     pub levels: Vec<Vec<File>>,
     pub transitions: u64,
@@ -410,7 +436,13 @@ pub fn explore_c01(rep: &mut Report, thorough: bool) {
     eprintln!("bfs: {:?} levels={:?}", t0.elapsed(), b.levels.iter().map(|l| l.len()).collect::<Vec<_>>());
     let docs = docs_quick();
     let doc_json: Vec<String> = docs.iter().map(|d| d.json()).collect();
-    let files: Vec<(File, String)> = b.levels.iter().flatten().map(|f| (f.clone(), print_file(f))).collect();
+    let mut files: Vec<(File, String)> = b.levels.iter().flatten().map(|f| (f.clone(), print_file(f))).collect();
+    let snf = same_name_family(thorough);
+    rep.extra.insert("same_name_programs".into(), serde_json::json!(snf.len()));
+    files.extend(snf.into_iter().map(|f| {
+        let t = print_file(&f);
+        (f, t)
+    }));
     let n = files.len() * docs.len();
     let deadline = crate::par::deadline_secs(if thorough { 3000 } else { 40 });
     let res = crate::par::run(
